@@ -137,16 +137,19 @@ impl SingleSubLowerer<'_, '_> {
 
             Err(def_id) => {
                 // exported sub
-                let sub_info = self.sub_info.unwrap();
                 match self.ctx.defs.user_func_qualifier(def_id).expect("isn't user func?") {
                     Some(sp_pat!(token![inline])) => Err(self.unsupported(stmt_span, "call to inline func")),
-                    Some(sp_pat!(token![const])) => panic!("leftover const func call during lowering"),
-                    None => match sub_info.call_reg_info.as_ref() {
+                    // (const funcs are not implemented; a call that reaches this point was not const-evaluated)
+                    Some(sp_pat!(token![const])) => Err(self.unsupported(stmt_span, "call to const func")),
+                    None => match self.sub_info {
+                        None => Err(self.unsupported(stmt_span, "call to a user-defined func")),
+                        Some(sub_info) => match sub_info.call_reg_info.as_ref() {
                         None => {
                             self.lower_eosd_call(stmt_span, stmt_data, call, &sub_info.exported_subs.subs[&def_id])
                         },
                         Some(call_reg_info) => {
                             self.lower_reg_call(stmt_span, stmt_data, call, &sub_info.exported_subs.subs[&def_id], call_reg_info)
+                        },
                         },
                     },
                 }
